@@ -13,7 +13,7 @@ def run(ctx):
         return err
     violations, cov = [], {"samples": []}
     # ---- a FROZEN process (runs in the background of this check): the same `go depth 8` in two processes, one of them stopped with
-    # SIGSTOP for more than a minute (three minutes in thorough) right after its first info line: wall-clock time passes, nothing else
+    # SIGSTOP for two minutes (five in thorough) right after its first info line: wall-clock time passes, nothing else
     # changes, so every info line (depth, nodes, score, pv) and the bestmove must be identical.  (Seeded changes r2C16, r9C16: behaviour
     # keyed on elapsed wall time — a default move time, a cache trim after 120 s — read from clocks no hook intercepts.)
     import signal
@@ -24,7 +24,7 @@ def run(ctx):
     frozen = {}
 
     def freeze_leg():
-        T = 65 if ctx["tier"] == "quick" else 185
+        T = 125 if ctx["tier"] == "quick" else 305
         engs = [uciproc.Engine(), uciproc.Engine()]
         try:
             for e in engs:
